@@ -147,6 +147,18 @@ pub fn write_image(case: &Case, file: &MemFile) -> Vec<(usize, usize)> {
         file.set_len(size);
     }
     let fill = case.get("rom_fill") as u64;
+    let fill_byte = case.get("fill_byte");
+    if fill_byte > 0 {
+        // whole image = one byte value (e.g. RST 00, so that stray execution stays in tiny blocks)
+        let chunk = vec![fill_byte as u8; 0x4000];
+        let mut off = 0;
+        while off < size {
+            let n = chunk.len().min(size - off);
+            file.pwrite(off, &chunk[..n]);
+            off += n;
+        }
+        dirty.push((0, size));
+    }
     if fill == 1 {
         for b in 0..(size / 0x4000) {
             let id = [(b & 0xff) as u8, (b >> 8) as u8];
